@@ -315,3 +315,60 @@ Proof.
   repeat (apply Forall_cons; [repeat (apply Forall_cons; [cbn [fst snd]; row_model_tac|]); apply Forall_nil|]).
   apply Forall_nil.
 Qed.
+
+(** * The documentation side of one step *)
+Lemma strip_prefix_sound p : forall s r, strip_prefix p s = Some r -> s = p ++ r.
+Proof.
+  induction p as [|x p IH]; intros s r H; cbn [strip_prefix] in H.
+  - injection H as <-. reflexivity.
+  - destruct s as [|y s]; [discriminate|]. destruct (x =? y) eqn:E; [|discriminate].
+    apply Z.eqb_eq in E. subst y. cbn [app]. f_equal. apply IH. exact H.
+Qed.
+Lemma lookup_sound t : forall s e rest, lookup t s = Some (e, rest) ->
+  exists name, In (name, e) t /\ s = name ++ rest.
+Proof.
+  induction t as [|[name e'] r IH]; intros s e rest H; [discriminate|]. cbn [lookup] in H.
+  destruct (strip_prefix name s) as [rest'|] eqn:Es.
+  - injection H as <- <-. exists name. split; [left; reflexivity|apply strip_prefix_sound; exact Es].
+  - destruct (IH _ _ _ H) as (n & Hn & Hs). exists n. split; [right; exact Hn|exact Hs].
+Qed.
+
+Definition split_mod (r : bytes) : option dpad * bytes :=
+  match r with
+  | c :: r' => match modifier c with Some p => (Some p, r') | None => (None, r) end
+  | [] => (None, r)
+  end.
+Definition toks_percent (comp : bytes -> list tok) (f : nat) (r : bytes) : list tok :=
+  let '(pad, r1) := split_mod r in
+  match lookup doc_table r1 with
+  | None => [KErr]
+  | Some (e, rest) =>
+      match e, pad with
+      | ENum f0 p, None => KNum f0 p :: toks comp f rest
+      | ENum f0 _, Some p => KNum f0 p :: toks comp f rest
+      | EText f0, None => KFix f0 :: toks comp f rest
+      | ELit t, None => KText t :: toks comp f rest
+      | EComposite x, None => comp x ++ toks comp f rest
+      | _, Some _ => [KErr]
+      end
+  end.
+Lemma toks_unfold comp f c r :
+  toks comp (S f) (c :: r) = if c =? 37 then toks_percent comp f r else KText [c] :: toks comp f r.
+Proof.
+  destruct (c =? 37) eqn:E.
+  - apply Z.eqb_eq in E. subst c. reflexivity.
+  - destruct c as [|p|p]; try reflexivity.
+    do 6 (destruct p as [p|p|]; try reflexivity). discriminate E.
+Qed.
+
+Definition row_doc_ok (name : bytes) (e : entry) (m : bytes) : Prop :=
+  forall comp f tl,
+    toks comp (S f) (37 :: m ++ name ++ tl) =
+    if row_is_err e m then [KErr] else row_toks comp e m ++ toks comp f tl.
+Lemma rows_doc : Forall (fun ne => Forall (row_doc_ok (fst ne) (snd ne)) modifiers) doc_table.
+Proof.
+  unfold doc_table, modifiers.
+  repeat (apply Forall_cons;
+          [repeat (apply Forall_cons; [cbn [fst snd]; intros comp f tl; vm_compute; reflexivity|]); apply Forall_nil|]).
+  apply Forall_nil.
+Qed.
